@@ -271,8 +271,11 @@ func (fx *Fx) stdlibCall(st *State, fn *types.Func, recvExpr ast.Expr, call *ast
 		r := fx.alloc(st, "err")
 		return []Val{{T: sig.Results().At(0).Type(), S: SRef, X: r}}
 	case "errors.Is":
+		// an uninterpreted relation of both arguments (not symmetric: errors.Is(wrapped, cause) does not give
+		// errors.Is(cause, wrapped)); known facts: with a nil argument it is equality, and every error is itself
 		e, t := args[0], args[1]
-		b := fx.d.freshConst("errors_is", SBool)
+		f := fx.d.declareFun("errIs", []string{SRef, SRef}, SBool)
+		b := app(f, e.X, t.X)
 		st.assume(implies(or(app("=", e.X, "nil"), app("=", t.X, "nil")), app("=", b, app("=", e.X, t.X))))
 		st.assume(implies(app("=", e.X, t.X), b))
 		return boolV(b)
